@@ -21,7 +21,12 @@ SPECDIR = os.path.join(vlib.SPEC, 'query')
 # place where the real planner was found to differ from the definition; the binding confirms every one of them on the
 # real code in every run.  When a defect is repaired in /repo, remove its rule here (the check reports a rule that no
 # longer reproduces as an infrastructure problem, naming it).
-CODE_DEVIATIONS = ['where', 'emptywhere', 'prec', 'intersect', 'chain3', 'drop3', 'tagsv2', 'attrless_le', 'distinct']
+# Repaired in /repo and therefore no longer listed (the rules stay in TraceQLSem!AllFlags as vocabulary, so that a
+# regression can be explained by switching one on by hand): 'where', 'emptywhere' (WHERE pre-filter without the
+# duration terms), 'tagsv2' (key/val outside GROUP BY), 'attrless_le' ({}: window end inclusive for the limit),
+# 'intersect' (&& as INTERSECT of span rows), 'drop3' (selector after `S op S &&` not planned), 'chain3' (nested
+# combination without timestamp_ns), 'prec' (`a && b || c` right-nested).
+CODE_DEVIATIONS = ['distinct']
 
 SIGNATURE = {
     'emptywhere': 'sql-invalid|selector-without-attribute-term-renders-empty-where-group',
@@ -265,7 +270,7 @@ def run(tier):
                         m[k] = m.get(k, 0) + v
             return m
         counts, by_layer, paths, flags, features = merge('counts'), merge('by_layer'), merge('paths'), merge('flags'), merge('features')
-        mism = [m for r in results for m in r['mismatches']]
+        mism = [m for r in results for m in (r['mismatches'] or [])]  # a shard without any mismatch writes null
         # infrastructure conditions
         infra = [m for m in mism if m['verdict'] == 'infra']
         if infra:
